@@ -1,3 +1,5 @@
+import Unimock.Generated.Control
+import Unimock.Lemmas.Gates
 import Unimock.Model.Codegen.Method
 import Unimock.Props.C07
 /-!
@@ -52,5 +54,22 @@ theorem C16_runtime_unmock (env : Env α ρ) (fuel lvl : Nat) (s s' : Shared α 
       (if m.unmockFn then runProg env fuel lvl s' (env.real m a)
        else ⟨s'.induce (.cannotUnmock m), [], .mockPanic (.cannotUnmock m), 0, 0⟩) := by
   rw [C07_continuations, h]
+
+
+/-! ### the responder dispatch of `eval::eval` as the source has it (`Generated/Control.lean`) -/
+
+/-- each `DynResponder` variant leads where the model says: `Unmock` to the real implementation, `ApplyDefaultImpl` to the
+    default body, `Answer` to the answer function, `Panic` to the explicit-panic error, `Return` to a value or the single-use error -/
+theorem C16_source_dispatch : ∀ v : Gates.RVariant, Generated.dispatch v = Gates.specDispatch v := by
+  intro v; cases v <;> rfl
+
+theorem C16_source_eval_result_dispatch :
+    Generated.dispatchEvalUnmock = .contUnmock ∧ Generated.dispatchEvalCallDefault = .contDefault := ⟨rfl, rfl⟩
+
+/-- hence the model's `respond` yields an outcome of the class the source dispatches the selected responder to -/
+theorem C16_source_respond {ρ} (m : MethodInfo) (pi : Nat) (rs : List (Responder ρ)) (ci ri : Nat) (r : Responder ρ)
+    (hf : findResponderIdx rs ci = some ri) (hr : rs[ri]? = some r) :
+    fitsDisp (Generated.dispatch (variantOf r.resp)) (respond m pi rs ci).2 := by
+  rw [C16_source_dispatch]; exact respond_fits_spec m pi rs ci ri r hf hr
 
 end Unimock
